@@ -642,7 +642,9 @@ def check(run):
             # no model here (main files of several MB as Coq lists): crash points after the last sync + second session
             do_history(run, impl, wd, "hg%d" % h, crc, ops, 0, 6, 0, model=None, mode=mode, ncont=8, ncross=0, tail_only=True)
         for h in range((4 if run.tier == "quick" else 40) * mult):
-            crc = run.rng.choice([0, 1, 2, 4])
+            # bit 4 = IWKV_NO_TRIM_ON_CLOSE: without the trim the closing checkpoint is the only chance of the buffered records
+            # (with it the trim's own checkpoint flushes them again after the failed write)
+            crc = run.rng.choice([4, 4, 5, 6, 0, 1])
             ops = gen_close_fault_history(run.rng)
             run.dist("history_close_under_write_fault")
             close_fault_case(run, impl, wd, "hq%d" % h, crc, ops)
